@@ -129,6 +129,20 @@ pub fn p384_twin(tok: &str) -> Option<String> {
 
 pub fn gen_c01(out: &mut impl Write, seed: u64, thorough: bool) {
     let mut r = Rng::new(seed ^ 0xC01);
+    // AES-CTR start block whose *low 32-bit word* wraps inside the message (v3: the block is an HKDF output; this key / nonce
+    // pair was found by search: low word ffffffd0, i.e. the wrap comes after 768 bytes): a narrower counter on one side only
+    // (seal or open) still verifies the tag and then decrypts garbage
+    {
+        let key: Vec<u8> = (0x70u8..0x90).collect();
+        let mut nonce = vec![0u8; 24]; nonce.extend(1479793u64.to_be_bytes());
+        for be in [Be::V3, Be::V3Lc] {
+            for ml in [700usize, 769, 2000, 70000] {
+                let msg = r.pattern(ml);
+                writeln!(out, "loc.seal {} {} {} {} - -", be.name(), hex(&key), hex(&nonce), hex(&msg)).unwrap();
+                writeln!(out, "m.spec.loc.seal {} {} {} {} - - | loc.open {} {} $ - want=ok:{}", be.name(), hex(&key), hex(&nonce), hex(&msg), be.name(), hex(&key), hex(&msg)).unwrap();
+            }
+        }
+    }
     let lens = msg_lens(thorough);
     for be in ALL_BE {
         let key = r.bytes(32);
@@ -617,6 +631,20 @@ pub fn gen_c03_public(out: &mut impl Write, r: &mut Rng, thorough: bool) {
 
 pub fn gen_c03(out: &mut impl Write, seed: u64, thorough: bool) {
     let mut r = Rng::new(seed ^ 0xC03);
+    // AES-CTR start block whose *low 32-bit word* wraps inside the message (v3: the block is an HKDF output; this key / nonce
+    // pair was found by search: low word ffffffd0, i.e. the wrap comes after 768 bytes): a narrower counter on one side only
+    // (seal or open) still verifies the tag and then decrypts garbage
+    {
+        let key: Vec<u8> = (0x70u8..0x90).collect();
+        let mut nonce = vec![0u8; 24]; nonce.extend(1479793u64.to_be_bytes());
+        for be in [Be::V3, Be::V3Lc] {
+            for ml in [700usize, 769, 2000, 70000] {
+                let msg = r.pattern(ml);
+                writeln!(out, "loc.seal {} {} {} {} - -", be.name(), hex(&key), hex(&nonce), hex(&msg)).unwrap();
+                writeln!(out, "m.spec.loc.seal {} {} {} {} - - | loc.open {} {} $ - want=ok:{}", be.name(), hex(&key), hex(&nonce), hex(&msg), be.name(), hex(&key), hex(&msg)).unwrap();
+            }
+        }
+    }
     // footers in another spelling than the receiver's footer type would write (tokens of other implementations)
     for be in ALL_BE {
         for (i, ft) in [&b"{\"kid\": \"k1\"}"[..], &b"{\"kid\":\"k1\"}  "[..], &b"x"[..], &b""[..]].iter().enumerate() {
